@@ -1,9 +1,243 @@
+"""Queries on the update-side harness (harness/update.cpp) shared by C01 C02 C03 C04 C06 C07 C08 C10 C15 C17."""
+import os
+import random
 from framework import Query
+from checks.registry import Registry, LATTICES, random_registry, permuted, SHAPE_AR
+
+ASSUMPTIONS = [
+    'registries are concrete and enumerated (named lattice shapes x sampled methods/definitions seeded by VERIF_SEED); inside one '
+    'query the solver variables are the dynamic class of every argument (and abstract flags, prior state, alias id choice where used)',
+    "definition parameter classes derive from the method's (enforced at compile time by the front end)",
+    'container models (models/) replace std::vector/deque/map/unordered_* and boost::dynamic_bitset in the CBMC build; the native build '
+    'uses the real ones and both are differential-tested on every run',
+]
+
+ASSERTS = {'C01': {1, 2}, 'C02': {1, 2}, 'C03': {20}, 'C04': {10, 11, 12, 13, 14, 15, 30, 31, 32, 33}, 'C06': {1, 2, 20},
+           'C07': {1, 2, 20, 47, 14}, 'C08': {1, 2, 10, 11, 12, 13, 20, 30, 31, 32, 33}, 'C10': {1, 2, 14, 15, 20},
+           'C15': {40, 41, 42, 45, 46}, 'C17': {50, 51, 52, 53, 54}}
+
+QUICK_LATTICES = ['chain3', 'tree3', 'vee', 'diamond', 'n_shape', 'three_roots_join', 'probe_c04', 'diamond_tail']
+ALL_LATTICES = [k for k in LATTICES if k not in ('single', 'probe_c06')]
 
 
-def c15_queries(tier):
-    return []
+def seed():
+    return int(os.environ.get('VERIF_SEED', '1') or 1)
+
+
+def _q(pid, reg, name, defines=None, covers=(999,), timeout=900, desc='', unwind=66, symbolic=None, extra_header=''):
+    d = {'POL': 1}
+    d.update(defines or {})
+    return Query(name, 'update.cpp', d, unwind=unwind, models=True, checks='none', covers=covers, timeout=timeout,
+                 gen_files={'registry.h': reg.header(extra_header)}, desc=desc or ('real update + resolve on registry ' + reg.name),
+                 symbolic=symbolic or 'dynamic class of every argument of every method',
+                 bounds={'registry': reg.describe(), 'unwind': unwind, 'container_capacity': 8, 'pointer_vector_capacity': 32,
+                         'dispatch_data_capacity': 64},
+                 diff_random=3, only_asserts=ASSERTS[pid])
+
+
+# ---- named probes (from the properties' own descriptions) ---------------------
+def probe_diamond():
+    return Registry('diamond', LATTICES['diamond'], [(2, [0, 0]), (5, [0, 0])], [[[0, 0], [1, 2], [3, 0]], [[1, 0], [0, 2], [3, 3]]])
+
+
+def probe_c04(presentation='complete', rec_order=None):
+    # C10, C11, C12:{C10}, C15:{C12,C11}; uni-methods on C10, C11, C15
+    return Registry('probe_c04', LATTICES['probe_c04'], [(1, [0]), (1, [1]), (1, [3])], [[[0], [3]], [[1]], [[3]]], presentation, rec_order)
+
+
+def probe_c06():
+    # definitions (X,R), (Z,Q), (Y,P); call (W,R)
+    return Registry('probe_c06', LATTICES['probe_c06'], [(2, [0, 5])], [[[1, 7], [3, 6], [2, 5]]])
+
+
+def probe_c17():
+    # A abstract; definitions (A,B), (A,C), (B,D), (C,D), (D,D) on a diamond
+    return Registry('probe_c17', LATTICES['diamond'], [(2, [0, 0])], [[[0, 1], [0, 2], [1, 3], [2, 3], [3, 3]]])
+
+
+def probe_three_roots():
+    # X, B, Y roots, D:{X,B,Y}; methods on each root
+    return Registry('three_roots_join', LATTICES['three_roots_join'], [(1, [0]), (1, [1]), (1, [2])], [[[0], [3]], [[1], [3]], [[2]]])
+
+
+def probe_mi_unrelated():
+    # Root, Left:{Root}, Right:{Root}, Both:{Left,Right}; Item, Special:{Item}: (Left,Item) vs (Right,Special), call (Both,Special)
+    direct = [[], [0], [0], [1, 2], [], [4]]
+    return Registry('mi_unrelated', direct, [(2, [0, 4])], [[[1, 4], [2, 5]]])
+
+
+def probe_next():
+    # C03: (A,A), (A,Dog), (Dog,A), (Dog,Cat) over Animal <- Dog, Cat
+    return Registry('tree3_next', LATTICES['tree3'], [(2, [0, 0]), (2, [0, 0])],
+                    [[[0, 0], [0, 1], [1, 0], [1, 2]], [[0, 1], [1, 2]]])
+
+
+def probe_arity3():
+    return Registry('chain2_arity3', LATTICES['chain2'], [(3, [0, 0, 0])], [[[0, 0, 1], [1, 0, 0], [0, 1, 0], [1, 1, 1]]])
+
+
+def family(tier, shapes=(1, 2, 2, 5, 3, 7), max_defs=3, per=None, lattices=None, nm=None, presentation='complete'):
+    rnd = random.Random(seed() * 1000003 + 17)
+    lat = lattices or (QUICK_LATTICES if tier == 'quick' else ALL_LATTICES)
+    per = per or (2 if tier == 'quick' else 5)
+    regs = []
+    for ln in lat:
+        for i in range(per):
+            regs.append(random_registry(rnd, ln, nm=nm, max_defs=max_defs, shapes=shapes, presentation=presentation))
+    return regs
+
+
+def tag(reg, i):
+    return '%s_%02d' % (reg.name, i)
+
+
+def base_regs(tier):
+    regs = [probe_diamond(), probe_mi_unrelated(), probe_next(), probe_arity3(), probe_c06(), probe_three_roots()]
+    regs += family(tier)
+    if tier == 'thorough':
+        regs += family(tier, shapes=(6, 4, 8, 3), per=1, lattices=['chain3', 'tree3', 'diamond'], nm=1, max_defs=4)
+    return regs
+
+
+def c01_queries(tier):
+    qs = [_q('C01', r, 'dispatch_' + tag(r, i), covers=(999,)) for i, r in enumerate(base_regs(tier))]
+    if tier == 'thorough':
+        for pol in (2, 3):
+            for j, r in enumerate([probe_diamond(), probe_next()]):
+                qs.append(_q('C01', r, 'dispatch_pol%d_%s' % (pol, tag(r, j)), {'POL': pol}))
+    return qs
 
 
 def c02_queries(tier):
-    return []
+    return [_q('C02', r, 'errorcell_' + tag(r, i)) for i, r in enumerate(base_regs(tier)[:10 if tier == 'quick' else 30])]
+
+
+def c03_queries(tier):
+    regs = base_regs(tier)
+    qs = [_q('C03', r, 'next_' + tag(r, i)) for i, r in enumerate(regs)]
+    # every update recomputes next: start from garbage next pointers, update twice
+    qs += [_q('C03', r, 'next_recomputed_' + tag(r, i), {'PRIOR_GARBAGE': 16, 'TWO_UPDATES': 1},
+              symbolic='argument classes; prior next pointers, dispatch data, static v-table pointers, slots/strides arbitrary')
+           for i, r in enumerate([probe_next(), probe_diamond()])]
+    return qs
+
+
+def c04_queries(tier):
+    regs = [probe_c04(), probe_c04('complete', [1, 0, 2, 3]), probe_c04('direct', [1, 0, 2, 3]), probe_three_roots(), probe_diamond()]
+    regs += family(tier, shapes=(1, 1, 2, 1, 5), nm=3, max_defs=2)
+    if True:
+        # incremental (direct bases only) presentation of the family, in a second registration order
+        rnd = random.Random(seed() * 31 + 5)
+        regs += [permuted(Registry(r.name, r.direct, r.methods, r.defs, 'direct'), rnd) for r in family(tier, shapes=(1, 1, 2, 1), nm=3, max_defs=1, per=1)]
+    return [_q('C04', r, 'slots_' + tag(r, i)) for i, r in enumerate(regs)]
+
+
+def c06_queries(tier):
+    rnd = random.Random(seed() * 7 + 3)
+    base = [probe_c06(), probe_diamond(), probe_mi_unrelated(), probe_next()] + family(tier, per=1)
+    qs = []
+    nperm = 3 if tier == 'quick' else 8
+    for i, r in enumerate(base):
+        k = nperm if i < 4 else (1 if tier == 'quick' else 3)
+        import itertools
+        if r.name == 'probe_c06':
+            # all 6 orders of the three definitions
+            for j, o in enumerate(itertools.permutations(range(3))):
+                pr = Registry(r.name, r.direct, r.methods, r.defs, r.presentation, None, None, [list(o)])
+                qs.append(_q('C06', pr, 'order_%s_d%d' % (tag(r, i), j), desc='definition registration order %s' % (list(o),)))
+            continue
+        for j in range(k):
+            qs.append(_q('C06', permuted(r, rnd), 'order_%s_p%d' % (tag(r, i), j), desc='permuted class / method / definition registration order'))
+    return qs
+
+
+def c08_queries(tier):
+    qs = []
+    pres = ['direct', 'direct_noself', 'redundant', 'split', 'split_trans']
+    base = [probe_c04(), probe_diamond(), probe_three_roots()] + family(tier, per=1, lattices=['diamond', 'n_shape', 'probe_c04', 'diamond_tail', 'chain4'] if tier == 'quick' else None)
+    for i, r in enumerate(base):
+        for p in (pres if (tier == 'thorough' or i < 3) else pres[:2] + [pres[3]]):
+            pr = Registry(r.name, r.direct, r.methods, r.defs, p)
+            qs.append(_q('C08', pr, 'presentation_%s_%s' % (p, tag(r, i)), desc='base lists presented as: ' + p))
+    # the property's own probe: incremental registration, class C11 registered before C10
+    for p in ('direct', 'direct_noself', 'complete'):
+        qs.append(_q('C08', probe_c04(p, [1, 0, 2, 3]), 'presentation_%s_probe_c04_c11_first' % p, desc='base lists presented as: %s; C11 registered first' % p))
+    return qs
+
+
+def c17_queries(tier):
+    regs = [probe_c17(), probe_diamond(), probe_arity3(), probe_next()] + family(tier, shapes=(2, 2, 3, 1, 5), per=1 if tier == 'quick' else 3, max_defs=4)
+    return [_q('C17', r, 'report_' + tag(r, i), {'CHECK_REPORT': 1}, unwind=130, symbolic='abstract / concrete flag of every class; argument classes')
+            for i, r in enumerate(regs)]
+
+
+def c07_queries(tier):
+    regs = [probe_diamond(), probe_next(), probe_c04()] + family(tier, per=1, lattices=['tree3', 'diamond', 'vee'] if tier == 'quick' else None)
+    return [_q('C07', r, 'history_' + tag(r, i), {'PRIOR_GARBAGE': 24, 'TWO_UPDATES': 1},
+               symbolic='state left by earlier updates: dispatch data (24 words), static v-table pointers, slots/strides, next pointers, vptrs; argument classes')
+            for i, r in enumerate(regs)]
+
+
+def c10_queries(tier):
+    qs = []
+    base = [probe_diamond(), probe_next(), probe_arity3()] + family(tier, per=1, lattices=['chain3', 'diamond'] if tier == 'quick' else QUICK_LATTICES)
+    for i, r in enumerate(base):
+        ar = Registry(r.name, r.direct, r.methods, r.defs, r.presentation, alias=True)
+        qs.append(_q('C10', ar, 'alias_ids_' + tag(r, i), {'ALIAS_IDS': 1}, desc='two ids per class, many-to-one type_index projection',
+                     symbolic='argument classes and which of its two ids each argument object carries'))
+        sparse = Registry(r.name, r.direct, r.methods, r.defs, r.presentation, ids=[3 + 4 * k for k in range(len(r.direct))])
+        qs.append(_q('C10', sparse, 'custom_ids_' + tag(r, i), desc='custom integer ids 3,7,11,... (identity projection)'))
+    return qs
+
+
+def c15_queries(tier):
+    qs = []
+    for pos, nm in ((1, 'base_list'), (2, 'method_parameter'), (3, 'definition_parameter')):
+        for i, r in enumerate([probe_diamond(), probe_next()]):
+            qs.append(_q('C15', r, 'update_unregistered_%s_%s' % (nm, tag(r, i)), {'UNREG_POS': pos, 'UNREG_ID': 23}, covers=(950,),
+                         desc='unregistered id in a ' + nm + ': unknown_class_error with that id before anything is installed'))
+    return qs
+
+
+_NOTE = ('Registries are concrete and enumerated (named lattice shapes incl. the properties\' own probes + methods/definitions sampled with '
+         'VERIF_SEED); CBMC cannot keep the compiler\'s pointer-rich state symbolic within budget (DESIGN.md §1). Inside a query the solver '
+         'quantifies over the dynamic class of every argument (and the extra variables named per query). Trusted: clang-14 -O1 lowering, ll2c, '
+         'container models (differential-tested against the real containers on every run), CBMC, the ~60-line oracle.')
+
+
+def _m(text):
+    return {'level_text': text, 'level_note': _NOTE}
+
+
+MANIFESTS = {
+    'C01': _m('Bounded model checking of the real update pipeline and call path: compiler<P> (augment_classes .. build_dispatch_tables, '
+              'best, install_gv, publish_vptrs) runs inside CBMC on each registry of a stated family, then the real method::resolve '
+              'runs on a symbolic argument tuple; the solver shows the returned pointer equals the reference oracle (documented '
+              'rule: applicable and more specific than every other applicable definition) for every tuple, for signature shapes '
+              '(v),(v,v),(v,v,v),(n,v),(v,n,v),(n,v,n,v),(v,v,n),(v,v,v,v). The table walk itself is decided for arbitrary tables, '
+              'hashes and vptr placements by the call-path queries (C09), the hash by C05.'),
+    'C03': _m('Same pipeline as C01; after update the next pointer of every definition must equal the oracle applied to the definitions '
+              'that are, at every position, the definition\'s class or a base of it and differ somewhere (winner / not-implemented / '
+              'ambiguous); a second query family starts from arbitrary stale next pointers and installed state and updates twice.'),
+    'C04': _m('Same pipeline as C01 on registries with up to 3 methods: for every class and every (method, parameter) applicable to it the '
+              'slot lies inside the class\'s v-table as sized by update and no two pairs share a slot; a bounds-checked re-implementation of '
+              'the documented table walk over the installed vector (every index asserted inside dispatch_data) must agree with the real '
+              'resolve and the oracle for every symbolic argument tuple.'),
+    'C06': _m('The registry is presented to the real update in permuted class / method / definition registration orders (all 6 orders of the '
+              'property\'s probe, sampled permutations elsewhere); every order must agree with the order-free oracle on every argument tuple and '
+              'every next pointer, hence with every other order.'),
+    'C07': _m('One inductive step instead of enumerated histories: all state that survives between updates (dispatch data, static v-table '
+              'pointers, slots/strides, next pointers, vptrs) starts ARBITRARY, the catalogs hold the current registry, update runs: dispatch '
+              'must equal the oracle on the current registry and a second update must leave every installed word identical. Catalog integrity '
+              'under add/remove is C18; the hash state is C05; deferred-RTTI id resolution has its own leaf queries.'),
+    'C08': _m('The same inheritance graph is registered under different presentations (complete lists, direct bases only, without the class '
+              'itself, redundant/duplicated, split over several records, transitive part in a separate reversed record) and record orders; '
+              'slots, dispatch and next must equal the oracle computed from the true graph.'),
+    'C10': _m('Same pipeline under custom RTTI flavours: sparse integer ids with identity projection; two ids per class with a many-to-one '
+              'type_index projection (each argument object symbolically carries either id; both ids must reach the class\'s v-table); '
+              'deferred_static_rtti id resolution across two updates is decided by leaf queries on resolve_static_type_ids. std_rtti differs '
+              'only by the id values and type_index (typeid pointers), which the hash (C05) and map lookups treat opaquely.'),
+    'C17': _m('Same pipeline with a symbolic abstract/concrete flag per class: after compile() the report\'s not_implemented / ambiguous / '
+              'concrete_* fields (as zero / non-zero) must equal an oracle enumeration of all acceptable class tuples, and cells must equal the '
+              'number of multi-method dispatch cells built.'),
+}
